@@ -56,7 +56,7 @@ def section(style, kind, entries, ind) -> list[str]:
     return L
 
 
-def doc(style, desc, ind, params=(), attrs=(), ret=None, ex=None) -> str:
+def doc(style, desc, ind, params=(), attrs=(), ret=None, ex=None, tail=None) -> str:
     L = [f'{ind}"""{desc[0]}'] + [f"{ind}{d}" for d in desc[1:]] + [""]
     if style == "PLAINTEXT":
         for n, t, x in [*params, *attrs]:
@@ -70,6 +70,8 @@ def doc(style, desc, ind, params=(), attrs=(), ret=None, ex=None) -> str:
         L += section(style, "attr", attrs, ind)
         L += section(style, "ret", [("", "int", ret)] if ret else [], ind)
         L += section(style, "ex", [("", "", ex)] if ex and style != "REST" else [], ind)
+    if tail and style == "GOOGLE":      # free text after the sections (the other styles read it as part of the last section)
+        L += ["", f"{ind}{tail}"]
     while L and L[-1] == "":
         L.pop()
     L.append(f'{ind}"""')
@@ -83,7 +85,7 @@ def desc_lines(o):
 def fun_src(style, owner, name, ind="", recv="", example=False, pname="p") -> str:
     u = und(owner)
     d = doc(style, desc_lines(owner), ind + "    ", params=[(pname, "int", f"tok_{u}_p_{pname} is a parameter.")], ret=f"tok_{u}_res is the result.",
-            ex=f'>>> tok_{u}_ex(">>> 1",\n...        [...])' if example else None)
+            ex=f'>>> tok_{u}_ex(">>> 1",\n...        [...])' if example else None, tail="Closing remark after the sections." if owner == "fb" else None)
     args = ", ".join(x for x in (recv, f"{pname}: int") if x)
     # a string statement further down in the body is no docstring
     return f"{ind}def {name}({args}) -> int:\n{d}\n{ind}    q = 1\n{ind}    \"\"\"String statement in the body of {name}.\"\"\"\n{ind}    return q\n"
@@ -218,21 +220,33 @@ def main(v: Verdict) -> None:
         for k, order in enumerate(orders):
             # the module has no docstring: the string after the first assignment is not one
             files[f"perm{k:02d}.py"] = "XMOD = 1\n\"\"\"String statement after XMOD.\"\"\"\n\n\n" + "\n".join(elem_src(style, e) for e in order)
+        # declarations of the package file that are called like submodules
+        files["__init__.py"] = ('"""tok_pkg_desc first line."""\n\n\ndef helper(a: int) -> int:\n    """tok_pkgfn_desc first line."""\n    ...\n\n\n'
+                                'class widget:\n    """tok_pkgcls_desc first line."""\n\n    def wm(self) -> int:\n        ...\n')
+        files["helper.py"] = '"""tok_submodh_desc first line."""\n\n\ndef run_h(a: int) -> int:\n    ...\n'
+        files["widget.py"] = '"""tok_submodw_desc first line."""\n\n\ndef run_w(a: int) -> int:\n    ...\n'
         d = write_pkg(files, "dapk" + style.lower()[:3])
         jobs.append({"src": d, "opts": Opts(docstyle=style), "timeout": 600, "trace_cache": True})
         meta.append((style, d.name))
     runs = run_many(jobs)
     per_style = {}
     for (style, root), r in zip(meta, runs):
-        if r.exit != "ok":
-            v.extra.setdefault("unobservable", []).append({"style": style, "exit": r.exit, "exc": r.exc, "frame": r.frame, "msg": r.msg})
+        if r.exit != "ok":      # a style that cannot be observed at all must not pass silently
+            v.machinery(f"run with style {style} failed: {r.exit} {r.exc} {r.frame} {r.msg}")
             continue
         if r.cache:      # the real cache's lookups during this analysis, in the order the analyser made them
             for c in range(0, len(r.cache), 4000):
                 obs.append({"id": f"cache:{style}:{c}", "kind": "cache", "obs": {"events": r.cache[c:c + 4000]}})
         stubs = Stubs(r)
+        pkgdocs = []
         for rel, f in stubs.files.items():
             mod = (f.pymodule or f.package).split(".")[-1]
+            if not mod.startswith("perm"):
+                if mod in ("helper", "widget"):
+                    pkgdocs.append({"decl": f"@module:{mod}", "text": [x.strip() for x in sds.doc_lines(f.doc)] if f.doc else []})
+                else:
+                    pkgdocs += [{"decl": d.pyname, "text": [x.strip() for x in sds.doc_lines(d.doc)] if d.doc else []} for d in f.members if d.pyname in ("helper", "widget")]
+                continue
             found, lines, texts = [], [], {}
             for owners, d in f.walk():
                 path = ".".join([o.pyname for o in owners] + [d.pyname])
@@ -243,6 +257,9 @@ def main(v: Verdict) -> None:
                     lines.append({"decl": path, "text": desc, "excode": excode})
             obs.append({"id": f"module:{style}:{mod}", "kind": "module", "obs": {"style": style, "found": found, "lines": lines, "moddoc": sds.doc_lines(f.doc) if f.doc else []}})
             per_style.setdefault(mod, {})[style] = texts
+        have = {d["decl"] for d in pkgdocs}
+        pkgdocs += [{"decl": x, "text": ["@missing"]} for x in ("helper", "widget", "@module:helper", "@module:widget") if x not in have]
+        obs.append({"id": f"pkgfile:{style}", "kind": "pkgfile", "obs": {"style": style, "docs": pkgdocs}})
     # style equivalence for constructs common to the three structured styles (functions and methods; class CB)
     for mod, by in sorted(per_style.items()):
         for a, b in (("NUMPYDOC", "GOOGLE"), ("NUMPYDOC", "REST")):
